@@ -182,7 +182,12 @@ class FixedArray2D
             end = e;
             slicelength = sl;
         } else if (PyInt_Check(index)) {
-            size_t i = canonical_index(PyInt_AsSsize_t(index), length);
+            //  a Python int that does not fit Py_ssize_t converts to -1 with
+            // an exception set; -1 must not be taken for "the last element"
+            Py_ssize_t pyIndex = PyInt_AsSsize_t(index);
+            if (pyIndex == -1 && PyErr_Occurred())
+                boost::python::throw_error_already_set();
+            size_t i = canonical_index(pyIndex, length);
             start = i; end = i+1; step = 1; slicelength = 1;
         } else {
             PyErr_SetString(PyExc_TypeError, "Object is not a slice");
